@@ -13,7 +13,7 @@ where
     };
     let can_be_used = can_be_used(&var_type, &rhs);
     let return_type = return_type(&var_type, &rhs);
-    can_be_used && return_type.matches(&var_type)
+    can_be_used && lhs.can_store(&return_type)
 }
 
 pub fn exec<T: FnOnce(Variable, Variable) -> Variable>(
